@@ -14,6 +14,7 @@
  R7 flags      a flag that decides a diagnostic inside a loop is re-assigned in that loop
  R8 nesting    every nested statement is resolved unless an error was already reported for its guard
  R9 renames    a pending USE/REFERENCE item is matched under the key it is later stored under (AS names)
+ R11 probe     a define guarded by a look-up probes the table (and key) it defines into
  R10 request   a look-up whose caller passed NULL for the optional `search subtypes too` request passes NULL on
 """
 from engines import init_rows, str_of, known_facts, calls_in, peval
@@ -36,7 +37,8 @@ EXPLANATION = (
     "from EXPRESSparse/EXPRESSresolve; (R6) results of resolver lookups are null-tested before use; (R8) in the statement "
     "resolver each call that resolves a nested statement (list, case item) is unconditional or guarded by an idiom that implies an "
     "error was already reported (the guarding expression failed to resolve; no label of a labelled case item resolved). "
-    "(R9) a pending USE/REFERENCE item is matched under the key it is stored under. (R10) when a look-up wrapper's optional \"search subtypes too\" request parameter is NULL, every reachable call passes NULL for the callee's search-mode parameter (mode parameters discovered as NULL-tested parameters guarding recursive search calls). Not decided: that each malformed schema reaches its detection branch; agreement on warnings.")
+    "(R9) a pending USE/REFERENCE item is matched under the key it is stored under. (R10) when a look-up wrapper's optional \"search subtypes too\" request parameter is NULL, every reachable call passes NULL for the callee's search-mode parameter (mode parameters discovered as NULL-tested parameters guarding recursive search calls). Not decided: that each malformed schema reaches its detection branch; agreement on warnings."
+    " (R11) wherever a DICTdefine is guarded by a test of the result of a DICTlookup made in the same function (SCHEMAdefine_use, SCHEMAdefine_reference, TYPEcreate_user_defined_tag), the look-up reads the table the definition goes into, under the same key: otherwise a conflicting second import is accepted and a repeated identical one is rejected.")
 
 STAGES = ["EXPRESSparse", "EXPRESSresolve"]
 DUMP_CODES = {"BAIL_OUT", "CORRUPTED_TYPE"}
@@ -702,7 +704,56 @@ def r10_request_respected(prog, res):
     res.floor("R10.request_respected", "wrappers with an optional request parameter", n, 1)
 
 
+def r11_probe_and_define_same_table(prog, res):
+    """`look the name up; define it unless an equal entry is already there` only detects a second, conflicting definition (and only
+    tolerates a repeated identical one) when the probe reads the table the definition goes into, under the same key.  For every
+    DICTdefine / DICT_define that is guarded by a test of a variable assigned from a DICTlookup in the same function: table and key
+    expressions of the two calls are the same."""
+    from engines import call_args as _args, enclosing_conditions
+    n = 0
+    for f in prog.all_functions():
+        if f.component != "express":
+            continue
+        defs = [c for c in f.calls() if (c.get("fn") or "") in ("DICTdefine", "DICT_define")]
+        looks = [c for c in f.calls() if (c.get("fn") or "") == "DICTlookup"]
+        if not defs or not looks:
+            continue
+        # variable <- DICTlookup(table, key)
+        src = {}
+        for x in f.walk():
+            if x["k"] == "Assign" and x.get("op", "=") == "=" and strip(x["ch"][0]) is not None and strip(x["ch"][0])["k"] == "Ref":
+                for c in looks:
+                    if any(y is c for y in walk(x["ch"][1])):
+                        src.setdefault(strip(x["ch"][0])["d"], []).append(c)
+            if x["k"] == "Var" and x.get("ch") and x["ch"][0] is not None:
+                for c in looks:
+                    if any(y is c for y in walk(x["ch"][0])):
+                        src.setdefault(x["d"], []).append(c)
+        for d_ in defs:
+            tested = set()
+            for cond, _br in enclosing_conditions(f, d_):
+                for y in walk(cond):
+                    if y["k"] == "Ref" and y.get("d") in src:
+                        tested.add(y["d"])
+            for v in sorted(tested):
+                for lk in src[v]:
+                    a, b = _args(d_), _args(lk)
+                    if len(a) < 2 or len(b) < 2:
+                        continue
+                    n += 1
+                    same_t = expr_str(a[0]) == expr_str(b[0])
+                    same_k = expr_str(a[1]) == expr_str(b[1])
+                    res.add("R11.probe_and_define_same_table", "R11|%s|%s|%s" % (f.relfile(), f.name, expr_str(a[0])[:60]), f.where(lk),
+                            same_t and same_k,
+                            "the entry is looked up in the table it is then defined in, under the same key" if same_t and same_k else
+                            "%s decides whether to define `%s` in `%s` from a look-up of `%s` in `%s`: a second, different declaration of the name "
+                            "in the first table is not seen (the conflict goes unreported, or a repeated identical import is reported as a "
+                            "redeclaration)" % (f.name, expr_str(a[1])[:40], expr_str(a[0])[:60], expr_str(b[1])[:40], expr_str(b[0])[:60]))
+    res.floor("R11.probe_and_define_same_table", "probe-then-define sites", n, 3)
+
+
 def run(prog, res, tier):
+    r11_probe_and_define_same_table(prog, res)
     t = c20.table(prog, res)
     if t is None:
         return
